@@ -117,15 +117,25 @@ impl C17 {
             let g2 = g1.clone().and_then(|t| toml::from_str::<toml::Value>(&t).map_err(|e| e.to_string())).and_then(|x| toml_edit::ser::to_string_pretty(&x).map_err(|e| e.to_string()));
             outs.push(("toml_edit::ser::to_string_pretty", g1, g2));
             let twice = (table.to_string(), table.to_string());
+            // the serializer object writes the same text as to_string, after what the buffer holds
+            let into_buffer: Vec<(&'static str, String, Option<String>)> = [false, true]
+                .into_iter()
+                .map(|pretty| {
+                    let mut buf = String::from("# written earlier\n");
+                    let r = if pretty { serde::Serialize::serialize(&v, toml::Serializer::pretty(&mut buf)) } else { serde::Serialize::serialize(&v, toml::Serializer::new(&mut buf)) };
+                    let want = if pretty { toml::to_string_pretty(&v) } else { toml::to_string(&v) };
+                    (if pretty { "toml::Serializer::pretty" } else { "toml::Serializer::new" }, buf, r.ok().and(want.ok()).map(|w| format!("# written earlier\n{w}")))
+                })
+                .collect();
             // the library's own equality: the decoded value is the value, whatever order the map kept
             let eq = if format!("{v:?}").contains("NaN") {
                 None
             } else {
                 Some(toml::to_string(&v).ok().and_then(|t| toml::from_str::<toml::Value>(&t).ok()).map(|back| (back == v, table.to_string().parse::<toml::Table>().map(|b| b == table).unwrap_or(false))))
             };
-            (outs, twice, eq)
+            (outs, twice, eq, into_buffer)
         });
-        let (outs, twice, eq) = match r {
+        let (outs, twice, eq, into_buffer) = match r {
             Ok(x) => x,
             Err((loc, msg)) => {
                 ctx.violation(&format!("panic:{}", crate::short_loc(&loc)), format!("serializing panicked at {loc}: {msg}"));
@@ -136,6 +146,14 @@ impl C17 {
             ctx.count("library-equality-checks");
             if !a || !b {
                 ctx.violation("decoded-value-not-equal", format!("`from_str(to_string(v)) == v` is {a}, `table.to_string().parse() == table` is {b} (toml::Value / toml::Table PartialEq) although the decoded data is the same"));
+            }
+        }
+        for (what, got, want) in into_buffer {
+            if let Some(want) = want {
+                ctx.count("serializer-into-buffer-checks");
+                if got != want {
+                    ctx.violation(&format!("serializer-into-buffer-differs:{what}"), format!("{what} into a buffer that already holds a comment line leaves {got:?}; the comment followed by the to_string text is {want:?}"));
+                }
             }
         }
         if twice.0 != twice.1 {
